@@ -4,6 +4,7 @@ import (
 	"encoding/json"
 	"fmt"
 	"os"
+	"strings"
 	"sync/atomic"
 	"time"
 
@@ -114,7 +115,7 @@ func genPbOpCase(r *Rng, tier string) CPCase {
 func init() {
 	register(&Prop{
 		ID: "C14",
-		Rule: "problems solved or optimised with Solver.CuttingPlanes = true, with and without DetectAtMostOne first: uniform 3-SAT, pigeonhole and at-most-one-rich CNF (3..12 variables), cardinality / PB constraint sets as for C02, and constraint sets with a cost function (weights of either sign) as for C03. Verdict, model and optimum are judged by the verified exhaustive oracles (GS.bruteSat / GS.bruteOpt), the run is repeated with the strategy off, and every constraint learned during the run (hook VerifSetLearnHook) must be entailed by the original problem (verified GS.entailsB). Non-trivial = at least one conflict with the strategy on; distinct = distinct (problem, detection flag).",
+		Rule: "problems solved or optimised with Solver.CuttingPlanes = true, with and without DetectAtMostOne first: uniform 3-SAT, pigeonhole and at-most-one-rich CNF (3..12 variables), cardinality / PB constraint sets as for C02, and constraint sets with a cost function (weights of either sign) as for C03. Verdict, model and optimum are judged by the verified exhaustive oracles (GS.bruteSat / GS.bruteOpt), the run is repeated with the strategy off, every constraint learned during the run (hook VerifSetLearnHook) must be entailed by the original problem (verified GS.entailsB), and sampled calls of cuttingPlanes (snapshot hook: state at entry, answer, conflict set before SimplifyPB) are compared with the Lean mirror GS.Cp.cpAnalyze, their states with its invariant cpInv. Non-trivial = at least one conflict with the strategy on; distinct = distinct (problem, detection flag).",
 		Gens: []Gen{
 			{Name: "family", Enum: func(tier string) []interface{} {
 				size := c14FamilySize
@@ -205,6 +206,18 @@ func runCPCase(o *Oracle, d json.RawMessage, oc *Outcome) {
 		learnedPhase = append(learnedPhase, int(atomic.LoadInt32(&phase)))
 	})
 	defer s.VerifSetLearnHook(nil)
+	var cps []solver.VerifCP
+	nCP := 0
+	s.VerifSetCPHook(func(c solver.VerifCP) {
+		nCP++
+		if (nCP <= 6 || nCP%15 == 0) && len(cps) < 20 {
+			cps = append(cps, c)
+		}
+	})
+	defer func() {
+		s.VerifSetCPHook(nil)
+		cpMirror(o, oc, cps, "solver.cuttingPlanes")
+	}()
 	check := func(entry string, status solver.Status, cost int, model []bool, withCost bool) {
 		switch status {
 		case solver.Unsat:
@@ -391,4 +404,106 @@ func runOptimalCount(s solver.Interface, phase *int32) optRun {
 	r := <-done
 	r.res = res
 	return r
+}
+
+// cpMirror ties each sampled call of cuttingPlanes to its Lean mirror GS.Cp.cpAnalyze (theorems
+// cpAnalyze_derivable / _sound / _unsat: under cpInv the conflict set is derivable from the problem,
+// the units and the learned constraint hold in every model, Unsat only without models): same
+// answer, same conflict set before SimplifyPB, the invariant cpInv on the real state, and the
+// executable asserting / progress conditions.
+func cpMirror(o *Oracle, oc *Outcome, samples []solver.VerifCP, entry string) {
+	for i, sp := range samples {
+		q := sp.Query
+		inv := o.Ask("cpanalyze_inv " + q)
+		if strings.Contains(inv, "distinct") {
+			// top-level units returned by an earlier analysis were bound again: the same literal sits
+			// twice on the trail (harmless); the hypotheses are checked without the repetition
+			q = cpDedup(q)
+			inv = o.Ask("cpanalyze_inv " + q)
+			oc.Tag("cp-trail-with-repeated-fact")
+		}
+		got := o.Ask("cpanalyze " + q)
+		oc.Corr++
+		if !cpSame(sp.Answer, got) {
+			oc.Fail("corr", "cpanalyze-mirror", entry, "analysis %d: cuttingPlanes returned %q, the Lean mirror GS.Cp.cpAnalyze %q on %s", i, sp.Answer, got, q)
+			return
+		}
+		if !strings.HasPrefix(inv, "inv 1") {
+			oc.Fail("corr", "cpanalyze-invariant", entry, "analysis %d: the solver state does not meet cpInv, the hypothesis of cpAnalyze_derivable (%s) on %s", i, inv, q)
+			return
+		}
+		if chk := o.Ask("cpanalyze_check " + q); chk != "assert 1 progress 1" {
+			oc.Fail("corr", "cpanalyze-progress", entry, "analysis %d: %s (asserting: the learned constraint propagates the returned literal after the backjump; progress: something new is learned) on %s", i, chk, q)
+			return
+		}
+	}
+	if len(samples) > 0 {
+		oc.Tag("cp-analyses-compared")
+	}
+}
+
+// cpSame compares the hook's answer with the mirror's: Go's sort is not stable beyond 12 terms,
+// so when the mirror marks the case tie-sensitive only the kind of answer and the conflict set
+// before SimplifyPB are compared.
+func cpSame(goAns, mirror string) bool {
+	tie := strings.HasSuffix(mirror, " | tie")
+	mirror = strings.TrimSuffix(mirror, " | tie")
+	norm := func(s string) (kind, body, raw string) {
+		if k := strings.Index(s, " | raw "); k >= 0 {
+			raw, s = s[k+7:], s[:k]
+		}
+		f := strings.Fields(s)
+		if len(f) == 0 {
+			return "", "", raw
+		}
+		kind = f[0]
+		body = strings.Join(f[1:], " ")
+		if strings.HasPrefix(kind, "units@") { // learned == nil
+			lvl := strings.TrimPrefix(kind, "units@")
+			if lvl == "1" {
+				kind = "units"
+			} else {
+				kind, body = "learned", lvl+" "+body+" | nil"
+			}
+		}
+		if kind == "learned" && strings.HasSuffix(body, "| nil") {
+			g := strings.Fields(body)
+			if len(g) >= 2 && g[0] == "1" { // nothing learned, literal asserted at the top level
+				kind, body = "units", g[1]
+			}
+		}
+		return
+	}
+	k1, b1, r1 := norm(goAns)
+	k2, b2, r2 := norm(mirror)
+	if tie {
+		return k1 == k2 && r1 == r2
+	}
+	return k1 == k2 && b1 == b2 && r1 == r2
+}
+
+// cpDedup removes repeated trail entries (same literal) from a cpanalyze query.
+func cpDedup(q string) string {
+	parts := strings.Split(q, " | ")
+	if len(parts) != 4 {
+		return q
+	}
+	tr := strings.Split(parts[2], " ; ")
+	rs := strings.Split(parts[3], " ; ")
+	if len(tr) != len(rs) {
+		return q
+	}
+	seen := map[string]bool{}
+	var tr2, rs2 []string
+	for i := range tr {
+		lit := strings.Fields(tr[i])
+		if len(lit) > 0 && seen[lit[0]] {
+			continue
+		}
+		if len(lit) > 0 {
+			seen[lit[0]] = true
+		}
+		tr2, rs2 = append(tr2, tr[i]), append(rs2, rs[i])
+	}
+	return parts[0] + " | " + parts[1] + " | " + strings.Join(tr2, " ; ") + " | " + strings.Join(rs2, " ; ")
 }
